@@ -164,8 +164,8 @@ def interleave2(s: str, a0: int, a1: int, b0: int, b1: int) -> bool:
     pre: gap_ok(s, a1, b0)
     post: _ == True
     """
-    t1 = FakeToken('A', s[a0:a1], a0, a1)
-    t2 = FakeToken('B', s[b0:b1], b0, b1)
+    t1 = FakeToken('A', s[a0:a1], start_pos=a0, end_pos=a1)
+    t2 = FakeToken('B', s[b0:b1], start_pos=b0, end_pos=b1)
     out = ign.interleave_ignored(s, [t1, t2])
     return ''.join(t.value for t in out) == s[a0:b1] and out[0] is t1 and out[-1] is t2 and \
         all(t.type in ('WS', 'COMMENT', 'NEWLINE', 'CONT') for t in out[1:-1])
@@ -179,9 +179,9 @@ def interleave3(s: str, a0: int, a1: int, b0: int, b1: int, c0: int, c1: int) ->
     pre: gap_ok(s, a1, b0) and gap_ok(s, b1, c0)
     post: _ == True
     """
-    t1 = FakeToken('A', s[a0:a1], a0, a1)
-    t2 = FakeToken('B', s[b0:b1], b0, b1)
-    t3 = FakeToken('C', s[c0:c1], c0, c1)
+    t1 = FakeToken('A', s[a0:a1], start_pos=a0, end_pos=a1)
+    t2 = FakeToken('B', s[b0:b1], start_pos=b0, end_pos=b1)
+    t3 = FakeToken('C', s[c0:c1], start_pos=c0, end_pos=c1)
     sub = Tree('sub', [t2], _meta(b0, b1))
     out = ign.interleave_ignored(s, [t1, sub, t3])
     flat = []
@@ -194,9 +194,9 @@ def build_tree(s, shape, a0, a1, b0, b1, c0, c1):
     """Stand-in parse trees as lark produces them with propagate_positions (meta = first/last token of the subtree).
     shape 0: root[]   1: root[A]   2: root[A B]   3: root[A sub[B]]   4: root[sub[A B] C]   5: root[A sub[B C]]
     6: root[sub[A] sub2[B C]]   7: root[A B C]"""
-    A = FakeToken('A', s[a0:a1], a0, a1)
-    B = FakeToken('B', s[b0:b1], b0, b1)
-    C = FakeToken('C', s[c0:c1], c0, c1)
+    A = FakeToken('A', s[a0:a1], start_pos=a0, end_pos=a1)
+    B = FakeToken('B', s[b0:b1], start_pos=b0, end_pos=b1)
+    C = FakeToken('C', s[c0:c1], start_pos=c0, end_pos=c1)
     if shape == 0:
         return Tree('root', [], Meta()), 0
     if shape == 1:
